@@ -326,8 +326,25 @@ pub fn scope(name: &str) -> Scope {
             false,
             &['a', 'b', 'c'],
         ),
-        // reluctant quantifiers over alternatives of which only one captures
-        "CAPR" => Scope::new("CAPR", &["(?:(a)|bc)", "(?:(a)|b)", "(a)", "a", "b", "c"], &["+?", "*?", "??", "{2,}?"], false, &['a', 'b', 'c']),
+        // reluctant quantifiers over alternatives of which only one captures; a counted
+        // group whose body ends in an optional capture
+        "CAPR" => Scope::new("CAPR", &["(?:(a)|bc)", "(?:(a)|b)", "(a)", "a", "b", "c", "(?:a(b)?)"], &["+?", "*?", "??", "{2,}?", "{2}"], false, &['a', 'b', 'c']),
+        // optional / alternative groups whose longer path is entered and abandoned, empty
+        // alternatives that are whole quantified groups, counted alternations that need
+        // empty iterations at the end, reluctant quantifiers with a finite maximum
+        "OPTG" => Scope::new(
+            "OPTG",
+            &["a", "b", "c", "(?:bb(c))?", "(?:ab(c))?", "(?:(ab){2}|a)", "(?:c|(?:ab|c)*)", "(?:c|(?:ab?)?)", "(?:a|ab|$){3}", "(?:a|ab|$){2}", "(?:a|ab)??", "(?:a|ab){2}?"],
+            &[],
+            false,
+            &['a', 'b', 'c', 'd'],
+        ),
+        // character classes inside capturing groups (first-character filters derived
+        // through a leading group)
+        "CLG" => Scope::new("CLG", &["[ab]", "[cd]", "\\d", "a"], &["?", "*", "+"], true, &['a', 'b', 'c', 'd', '1']),
+        // counted quantifiers with narrow ranges from three up, nested in a quantified group
+        "QN" => Scope::new("QN", &["a", "[ab]"], &["{3,4}", "{4,5}", "{2,3}", "+", "{1,2}", "{2,}", "*"], false, &['a']),
+        "QNA" => scope("QN").wrapped("QNA", "^(?:", ")$", &['a']),
         // back-references to groups that are optional, possibly empty, inside a
         // repetition or in a later alternative (composite leaves)
         "BR" => Scope::new(
@@ -459,7 +476,7 @@ pub const T_QUANT: [&str; 11] = ["a", "{", "}", ",", "1", "2", "0", "?", " ", "+
 
 /// Group syntax around back-references: capturing and non-capturing groups,
 /// references to closed, open and later groups.
-pub const T_GROUP: [&str; 8] = ["(", "(?:", ")", "a", "\\1", "\\2", "|", "*"];
+pub const T_GROUP: [&str; 9] = ["(", "(?:", ")", "a", "\\1", "\\2", "|", "*", "{0}"];
 
 /// Class syntax after an escaped backslash (whitespace preprocessor of flag x).
 pub const T_XCLS: [&str; 12] = ["a", "b", "\\\\", "\\[", "\\]", "[", "]", "[^", "-[", "(", ")", "?"];
